@@ -269,6 +269,64 @@ func init() {
 				}
 			}
 		}
+		c.Rule("C17f key kinds are independent bits: in unregisterKey (and registerKey) the developer-kind handling is not under the false outcome of the admin-kind test — a key carrying both kinds loses both; C17g snapshot at the target block: snapshotProject reads the project version at the block it then appends the reset version at (its own block parameter), so a version already pending at that block is carried over, not overwritten by the current one")
+		for _, fnn := range []string{"unregisterKey", "registerKey"} {
+			f := c.Fn("x/projects/keeper.Keeper." + fnn)
+			if f == nil {
+				continue
+			}
+			var devTests []ssa.Instruction
+			ir.EachInstr(f, func(in ssa.Instruction) {
+				call := ir.CallOf(in)
+				if call != nil && ir.CalleeName(call) == "x/projects/types.ProjectKey.IsType" && len(call.Args) == 2 && ir.Desc(call.Args[1]) == c.Const("x/projects/types", "ProjectKey_DEVELOPER") {
+					devTests = append(devTests, in)
+				}
+			})
+			if len(devTests) == 0 {
+				c.Undecided("C17f: no IsType(DEVELOPER) test in %s", fnn)
+				continue
+			}
+			bad := false
+			for _, in := range devTests {
+				for _, fct := range ir.GuardFacts(in) {
+					if strings.HasPrefix(fct, "!call(x/projects/types.ProjectKey.IsType)(") && strings.HasSuffix(fct, ","+c.Const("x/projects/types", "ProjectKey_ADMIN")+")") {
+						bad = true
+					}
+				}
+			}
+			if bad {
+				c.Fail("C17f/"+fnn+"/developer-kind-handled-independently-of-admin-kind", c.P.InstrPos(devTests[0]), "the developer kind is only examined when the key is not an admin key: a key registered as ADMIN|DEVELOPER keeps (or never gets) its developer-key → project mapping")
+			} else {
+				c.OK("C17f/"+fnn+"/developer-kind-handled-independently-of-admin-kind", c.P.InstrPos(devTests[0]), "")
+			}
+		}
+		if sp := c.Fn("x/projects/keeper.Keeper.snapshotProject"); sp != nil {
+			apps := c.CallsByName(sp, false, "x/fixationstore/types.FixationStore.AppendEntry")
+			if len(apps) != 1 {
+				c.Undecided("C17g: expected one AppendEntry in snapshotProject, found %d", len(apps))
+			} else {
+				at := ir.Desc(ir.CallOf(apps[0].Instr).Args[3])
+				okRead := false
+				ir.EachInstr(sp, func(in ssa.Instruction) {
+					call := ir.CallOf(in)
+					if call == nil {
+						return
+					}
+					n := ir.CalleeName(call)
+					if n == "x/fixationstore/types.FixationStore.FindEntryDetailed" && ir.Desc(call.Args[3]) == at && at == "param#2" {
+						okRead = true
+					}
+					if n == "x/projects/keeper.Keeper.getProjectForBlock" && ir.Desc(call.Args[3]) == at && at == "param#2" {
+						okRead = true
+					}
+				})
+				if okRead {
+					c.OK("C17g/snapshotProject/reads-the-version-at-the-block-it-writes", c.P.InstrPos(apps[0].Instr), "FindEntryDetailed(projectID, block) … AppendEntry(index, block)")
+				} else {
+					c.Fail("C17g/snapshotProject/reads-the-version-at-the-block-it-writes", c.P.InstrPos(apps[0].Instr), "the reset version appended at "+at+" is built from a project version read at another block: a key or policy change pending at that block is overwritten")
+				}
+			}
+		}
 		c.NotCovered("multi-version snapshot arithmetic; fixation-store version visibility (C14)")
 	})
 }
